@@ -95,7 +95,8 @@ def work(payload, skip, report):
                 acc.case()
                 if got != want:
                     acc.violation(classify(lib, page, got, want),
-                                  {"library": lib_key(lib), "page": text, "ast": repr(page)}, got, want)
+                                  {"library": {k: [body_text(*v), v[1]] for k, v in lib.items()}, "page": text, "ast": repr(page),
+                                   "reference": want}, got, want)
                 acc.distinct("outputs", want)
                 if i % 20011 == 0:
                     acc.sample({"library": lib_key(lib), "page": text, "expands_to": want})
@@ -114,8 +115,8 @@ def work_extra(payload, skip, report):
         acc.case()
         if got != want:
             acc.violation(classify(lib, page, got, want),
-                          {"library": {k: [body_text(*v), v[1]] for k, v in lib.items()}, "page": text, "ast": repr(page)},
-                          got, want)
+                          {"library": {k: [body_text(*v), v[1]] for k, v in lib.items()}, "page": text, "ast": repr(page),
+                           "reference": want}, got, want)
         acc.distinct("outputs", want)
     close_ctx(ctx)
     return acc
@@ -135,7 +136,7 @@ def replay(case):
             got = "EXC " + type(e).__name__
     finally:
         close_ctx(ctx)
-    want = case.get("_want")
+    want = case.get("reference")
     if want is None:
         return None
     return [] if got == want else [{"oracle": "expand_equals_reference", "observed": got, "expected": want}]
@@ -189,4 +190,4 @@ def main(run):
         "the AST evaluator in vmc/ref_expand.py (no wikitext parsing) and the AST->wikitext renderer are the trusted reference",
         "text atoms avoid '=', '|', braces and brackets, so the rendering is unambiguous",
     ]
-    return run.finish(cov, assumptions, replay_fn=None)
+    return run.finish(cov, assumptions, replay_fn=replay)
